@@ -2,12 +2,14 @@
 # usage: tools/run_mutant.sh <patch.diff> C04 C05 ...   (applies the patch to /repo, runs the quick checks, reverts)
 patch="$1"; shift
 cd /repo || exit 2
-git apply --check "$patch" 2>/dev/null || { echo "PATCH DOES NOT APPLY (trying 3-way)"; git apply --3way "$patch" || exit 3; git reset -q; }
-git apply "$patch" 2>/dev/null
+if ! git apply --check "$patch" 2>/dev/null; then
+  echo "PATCH DOES NOT APPLY CLEANLY to the repaired tree: $patch"; exit 3
+fi
+git apply "$patch"
 git status --short | grep -v _version
 cd /verif
 for c in "$@"; do
   out=$(./check "$c" --tier quick 2>/dev/null | grep -E "VIOLATION|KNOWN" | head -3)
-  echo "== $c exit=$? :: $(echo "$out" | head -2 | tr '\n' ' ')"
+  echo "== $c :: $(echo "$out" | head -2 | cut -c1-160 | tr '\n' ' ')"
 done
 cd /repo && git checkout -- . && git status --short | grep -v _version
